@@ -50,7 +50,8 @@ theorem repStep_split (prefix_ hap : Str) (out : List ReportRow) (seen : List (O
   unfold stepLines csvStep repStep
   by_cases hr : s.rank = (1 : Int) ∨ s.rank = (2 : Int)
   · simp only [if_pos hr]
-    split <;> simp [mkRow]
+    generalize (if truthy s.originalName = true then dGet? seen s.originalName else none) = m
+    cases m <;> simp [mkRow]
   · simp only [if_neg hr]; simp
 
 theorem stepLines_length (prefix_ : Str) (seen : List (Option Str × Str)) (s : Scaffold) :
@@ -58,7 +59,8 @@ theorem stepLines_length (prefix_ : Str) (seen : List (Option Str × Str)) (s : 
   unfold stepLines csvStep isChrRank
   by_cases hr : s.rank = (1 : Int) ∨ s.rank = (2 : Int)
   · simp only [if_pos hr, decide_eq_true hr, if_true]
-    split <;> simp
+    generalize (if truthy s.originalName = true then dGet? seen s.originalName else none) = m
+    cases m <;> simp
   · simp only [if_neg hr, decide_eq_false hr]; simp
 
 /-- the two loops in lock step: the same dict, and line by line the same `(name, chr_name, localised)` -/
